@@ -21,6 +21,7 @@ Result of a function: (return value, out-parameter fields written ...) as a tupl
 """
 import json
 import os
+import re
 import subprocess
 import sys
 
@@ -647,6 +648,863 @@ def translate_cond(gname, decl, which):
     return "Definition %s %s : option bool :=\n  %s.\n" % (gname, " ".join("(%s : Z)" % p for p in order), term)
 
 
+# =====================================================================================================================
+# Typed translation with the undefined behaviour of C explicit (class CTr): one generated file per C source file
+# (Gen/LeafWork.v, Gen/LeafPopen.v, ...), all on top of the hand-written semantics file Base/CSem.v.
+#
+# Every generated definition has type `option T`, None = an operation that C leaves undefined was executed.  Unlike Tr /
+# CondTr above, CTr follows the types clang computed (every implicit conversion of the AST is translated):
+#   * integer types are those of LP64 x86-64 Linux (INT_TYPES); a parameter is assumed to lie in the range of its C type
+#     (a hypothesis of the link lemmas where it matters);
+#   * unsigned + - * ~ unary-minus and conversions to unsigned types wrap (c_wrap_u); signed + - * unary-minus are None when the
+#     result is not representable (c_chk_s); / % are None for a zero divisor (and INT_MIN / -1); shifts are None for a count
+#     < 0 or >= the width of the promoted left operand, signed << also for a negative value or an unrepresentable result;
+#     conversions to signed types that do not preserve the value reduce modulo 2^N (implementation-defined; gcc, clang);
+#   * && || ?: evaluate their later operands only when C does (ub_and / ub_or / if); ++ -- inside such an operand, an
+#     assignment inside an expression, the comma operator, and an object that is modified and also accessed without an
+#     intervening sequence point are translation failures;
+#   * an lvalue is flattened into a name: p->f and s.f become p_f, s_f; the value of a pointer-typed lvalue p is its
+#     address, parameter p_addr (0 = NULL); pointer comparison is comparison of addresses; p + n is address arithmetic
+#     (n * sizeof *p, sizeof(void) = 1 as in GNU C) that must stay inside [0, 2^64) (c_chk_ptr), object bounds are not tracked;
+#     a dereference p->f of a pointer whose address occurs in the translated text (a comparison) is None when p_addr = 0
+#     (c_deref); a pointer that is only dereferenced is assumed valid;
+#   * lvalues read before they are written are the parameters of the definition (in fragment modes this includes block-scope
+#     variables: their values when the fragment is executed); a write through a pointer followed by an access to the same
+#     field through another path is a translation failure (possible alias);
+#   * sizeof(T) is evaluated by clang for the current source (no table);
+#   * anything else (loops inside the translated text, calls of functions that are not translated entries of the same
+#     file, struct assignment, arrays, unions, floating point, _Bool, enum constants ...) is a translation failure: the file then holds no
+#     definitions, the link lemmas stop compiling, and the message is kept in LAST_ERRORS[<file name>].
+# Selectors:
+#   ("fn",)              the whole (loop-free) function: result Some (return value, fields written through pointers /
+#                        file-scope variables written ...)
+#   ("cond", kind, n)    the controlling expression of the n-th `kind` statement (kind in if / while / do / for), counted in
+#                        pre-order over the whole function body: result option bool
+#   ("stmt", lhs, n)     the n-th statement (pre-order) that writes the lvalue spelled `lhs` (= , op= , ++ , -- , or a
+#                        declaration with an initialiser): result Some (new value of lhs, other objects written ...)
+# Options (dict): "#opaque_init": [names of local variables whose initialiser is NOT translated (e.g. iv_container_of);
+#                 the local then stands for whatever it holds: its fields / address are parameters].
+INT_TYPES = {"char": (True, 8), "signed char": (True, 8), "unsigned char": (False, 8), "short": (True, 16),
+             "unsigned short": (False, 16), "int": (True, 32), "unsigned int": (False, 32), "long": (True, 64),
+             "unsigned long": (False, 64), "long long": (True, 64), "unsigned long long": (False, 64)}
+C_INT = ("int", True, 32)
+C_ULONG = ("int", False, 64)
+COQ_RESERVED = {"as", "at", "cofix", "else", "end", "exists", "exists2", "fix", "for", "forall", "fun", "if", "IF", "in", "let",
+                "match", "mod", "Prop", "return", "Set", "then", "Type", "using", "where", "with", "by", "Some", "None",
+                "true", "false", "negb", "b2z", "ub_bind", "ub_and", "ub_or", "Z", "bool", "option", "unit", "tt"}
+
+TYPED = [
+    ("LeafWork.v", "iv_work.c", [
+        ("work_last_seq", "iv_work_thread_got_event", ("stmt", "last_seq", 0), {}),
+        ("work_more_test", "iv_work_thread_got_event", ("cond", "while", 0), {}),
+        ("work_drained_test", "iv_work_thread_got_event", ("cond", "if", 2), {}),
+        ("work_take_seq", "iv_work_thread_got_event", ("stmt", "pool->seq_head", 0), {}),
+        ("work_submit_seq", "iv_work_submit_pool", ("stmt", "pool->seq_tail", 0), {}),
+    ]),
+]
+
+_QUAL = re.compile(r"\b(const|volatile|restrict|__restrict)\b")
+_AST_CACHE = {}
+_SIZEOF_CACHE = {}
+
+
+def clang_flags(incdir):
+    return ["-D_GNU_SOURCE", "-DHAVE_CONFIG_H", "-I" + incdir, "-I" + os.path.join(REPO, "src", "include"),
+            "-I" + os.path.join(REPO, "src")]
+
+
+def ast_of_cached(cfile, fn, incdir):
+    key = (cfile, fn)
+    if key not in _AST_CACHE:
+        _AST_CACHE[key] = ast_of(cfile, fn, incdir)
+    return _AST_CACHE[key]
+
+
+def c_sizeof(cfile, incdir, tytext):
+    """sizeof(<type name>) in the translation unit src/<cfile>, evaluated by clang (LLVM IR of a global initialiser)"""
+    key = (cfile, tytext)
+    if key in _SIZEOF_CACHE:
+        return _SIZEOF_CACHE[key]
+    if tytext == "void":
+        _SIZEOF_CACHE[key] = 1          # GNU C
+        return 1
+    src = '#include "%s"\nunsigned long c2g_sizeof_probe = sizeof(%s);\n' % (os.path.join(REPO, "src", cfile), tytext)
+    p = subprocess.run(["clang", "-w", "-S", "-emit-llvm", "-o", "-", "-x", "c", "-"] + clang_flags(incdir), input=src,
+                       stdout=subprocess.PIPE, stderr=subprocess.PIPE, text=True)
+    m = re.search(r"@c2g_sizeof_probe\s*=.*\bglobal i64 (\d+)", p.stdout)
+    if p.returncode != 0 or not m:
+        raise Unsupported("sizeof(%s) could not be evaluated (clang: %s)" % (tytext, p.stderr[-200:]))
+    _SIZEOF_CACHE[key] = int(m.group(1))
+    return _SIZEOF_CACHE[key]
+
+
+def ctype(tnode):
+    """('int', signed, bits) | ('ptr', pointee text) | ('other', text)"""
+    tnode = tnode or {}
+    q = tnode.get("desugaredQualType") or tnode.get("qualType") or ""
+    q = " ".join(_QUAL.sub(" ", q).split())
+    if q.endswith("*"):
+        return ("ptr", q[:-1].strip())
+    if q in INT_TYPES:
+        return ("int",) + INT_TYPES[q]
+    return ("other", q)
+
+
+def c_wrap(c, signed, bits):
+    c %= 1 << bits
+    return c - (1 << bits) if signed and c >= 1 << (bits - 1) else c
+
+
+def c_fits(c, signed, bits):
+    return (-(1 << (bits - 1)) <= c < (1 << (bits - 1))) if signed else (0 <= c < (1 << bits))
+
+
+def zlit(c):
+    return str(c) if c >= 0 else "(%d)" % c
+
+
+class V:
+    """a translated rvalue: pure Gallina term `t` (of type Z, or bool when k == 'B'), C type, python value when constant"""
+    __slots__ = ("t", "ty", "k", "const")
+
+    def __init__(self, t, ty, k="Z", const=None):
+        self.t, self.ty, self.k, self.const = t, ty, k, const
+
+
+class CTr:
+    def __init__(self, gname, decl, cfile, incdir, sel, opts, known):
+        self.gname, self.decl, self.cfile, self.incdir, self.sel, self.opts, self.known = gname, decl, cfile, incdir, sel, opts, known
+        self.params = []            # [(gallina name, C spelling, C type text)] in order of first use
+        self.pnames = {}            # gallina name -> C spelling (clash detection)
+        self.binds = []             # [(variable, option-typed term)] of the innermost open scope
+        self.checked = [set()]      # pointers already null-checked, per open scope
+        self.nfresh = 0
+        self.scoped_depth = 0       # > 0: inside an operand that C evaluates conditionally
+        self.no_effects = False     # cond mode: the expression must not write
+        self.fx_read, self.fx_mod = set(), set()     # objects read / modified since the last sequence point
+        self.written = {}           # last field name -> {names written through a pointer path}
+        self.outs = []              # [(name, spelling, type)] observable objects written, in order of first write
+        self.addr_ptrs = set()      # pointer lvalues whose address occurs in the translated text
+        self.opaque = set(opts.get("#opaque_init", []))
+        body = [c for c in decl["inner"] if c["kind"] == "CompoundStmt"][0]
+        self.body = body
+        self.cparams = [(c["name"], c.get("type", {})) for c in decl["inner"] if c["kind"] == "ParmVarDecl"]
+        self.locals = set(n for n, _ in self.cparams)
+        self.collect_locals(body)
+        self.all_out = sel[0] != "fn"
+
+    # ---------------------------------------------------------------- helpers
+    def collect_locals(self, n):
+        if n.get("kind") == "VarDecl" and n.get("storageClass") != "static":
+            self.locals.add(n["name"])
+        for c in n.get("inner", []):
+            if isinstance(c, dict):
+                self.collect_locals(c)
+
+    def fresh(self):
+        self.nfresh += 1
+        return "v%d" % self.nfresh
+
+    def bind(self, oterm):
+        v = self.fresh()
+        self.binds.append((v, oterm))
+        return v
+
+    def scoped(self, f):
+        saved = self.binds
+        self.binds = []
+        self.checked.append(set())
+        self.scoped_depth += 1
+        try:
+            val = f()
+            binds = self.binds
+        finally:
+            self.binds = saved
+            self.checked.pop()
+            self.scoped_depth -= 1
+        return val, binds
+
+    @staticmethod
+    def close(binds, body):
+        for v, t in reversed(binds):
+            body = "(ub_bind %s (fun %s => %s))" % (t, v, body)
+        return body
+
+    @staticmethod
+    def unparen(t):
+        return t[1:-1] if t.startswith("(") and t.endswith(")") else t
+
+    def seq_point(self):
+        self.fx_read, self.fx_mod = set(), set()
+
+    def skip(self, n):
+        while n.get("kind") in ("ParenExpr", "ConstantExpr"):
+            n = n["inner"][0]
+        return n
+
+    def qual(self, n):
+        return (n.get("type") or {}).get("qualType", "?")
+
+    def param(self, name, text, tytext, ty, akey=None, base=None):
+        if name in COQ_RESERVED or re.match(r"v\d+$", name) or name.startswith("c_"):
+            raise Unsupported("C name %s clashes with a name of the generated text" % name)
+        if self.pnames.setdefault(name, text) != text:
+            raise Unsupported("flattened name %s stands for both `%s` and `%s`" % (name, self.pnames[name], text))
+        if name not in [p[0] for p in self.params]:
+            self.params.append((name, text, tytext, ty, akey, base if base is not None else name))
+        return name
+
+    # ---------------------------------------------------------------- lvalues
+    def ptr_lvalue(self, n):
+        """n: a pointer-valued rvalue expression.  The lvalue node it loads (through no-op / bit casts), or None."""
+        loaded = False
+        while True:
+            n = self.skip(n)
+            if n.get("kind") in ("ImplicitCastExpr", "CStyleCastExpr") and n.get("castKind") in ("LValueToRValue", "NoOp", "BitCast"):
+                if n["castKind"] == "LValueToRValue":
+                    if loaded:
+                        return None
+                    loaded = True
+                n = n["inner"][0]
+                continue
+            break
+        if loaded and n.get("kind") in ("DeclRefExpr", "MemberExpr"):
+            return n
+        return None
+
+    def lv(self, n, env, check=True):
+        """(flattened name, C spelling, alias key) of an lvalue expression"""
+        n = self.skip(n)
+        k = n["kind"]
+        if k == "DeclRefExpr":
+            rd = n["referencedDecl"]
+            if rd.get("kind") not in ("VarDecl", "ParmVarDecl"):
+                raise Unsupported("reference to a %s (%s)" % (rd.get("kind"), rd.get("name")))
+            return rd["name"], rd["name"], None
+        if k == "MemberExpr":
+            if "name" not in n or not n["name"]:
+                raise Unsupported("anonymous member")
+            base = n["inner"][0]
+            if n.get("isArrow"):
+                pl = self.ptr_lvalue(base)
+                if pl is None:
+                    raise Unsupported("p->%s where p is not a variable or a field" % n["name"])
+                bname, btext, _ = self.lv(pl, env, check)
+                if check:
+                    self.deref_check(bname, btext, pl, env)
+                return bname + "_" + n["name"], btext + "->" + n["name"], n["name"]
+            bname, btext, akey = self.lv(base, env, check)
+            return bname + "_" + n["name"], btext + "." + n["name"], (n["name"] if akey is not None else None)
+        raise Unsupported("lvalue of kind %s" % k)
+
+    def deref_check(self, bname, btext, pl, env):
+        if bname not in self.addr_ptrs or any(bname in s for s in self.checked):
+            return
+        a = self.read(bname, ctype(pl.get("type")), btext, self.qual(pl), env, None, record=False)
+        self.bind("(c_deref %s)" % a.t)
+        self.checked[-1].add(bname)
+
+    def read(self, name, ty, text, tytext, env, akey, record=True):
+        if ty[0] not in ("int", "ptr"):
+            raise Unsupported("read of `%s` of type %s" % (text, tytext))
+        base = name
+        if ty[0] == "ptr":
+            name += "_addr"
+        if record:
+            if name in self.fx_mod:
+                raise Unsupported("`%s` is modified and read without an intervening sequence point" % text)
+            self.fx_read.add(name)
+        if akey is not None and self.written.get(akey, set()) - {name}:
+            raise Unsupported("`%s` is accessed after a write to field %s through another path (possible alias)" % (text, akey))
+        if name in env:
+            return env[name]
+        return V(self.param(name, text, tytext, ty, akey, base), ty)
+
+    def write(self, name, ty, text, tytext, akey, val, env, in_expr):
+        if self.no_effects:
+            raise Unsupported("the controlling expression writes `%s`" % text)
+        if self.scoped_depth:
+            raise Unsupported("`%s` is written inside a conditionally evaluated operand" % text)
+        if ty[0] not in ("int", "ptr"):
+            raise Unsupported("write of `%s` of type %s" % (text, tytext))
+        if ty[0] == "ptr":
+            name += "_addr"
+        if name in self.fx_mod or (in_expr and name in self.fx_read):
+            raise Unsupported("`%s` is modified and accessed without an intervening sequence point" % text)
+        self.fx_mod.add(name)
+        if akey is not None:
+            if self.written.get(akey, set()) - {name}:
+                raise Unsupported("`%s` is written after a write to field %s through another path (possible alias)" % (text, akey))
+            self.written.setdefault(akey, set()).add(name)
+        env[name] = V(val.t, ty, val.k, val.const)
+        root = re.split(r"->|\.", text)[0]
+        if self.all_out or "->" in text or root not in self.locals:
+            if name not in [o[0] for o in self.outs]:
+                self.outs.append((name, text, tytext, ty, akey))
+
+    # ---------------------------------------------------------------- values
+    def asZ(self, v):
+        if v.k == "B":
+            return V("(b2z %s)" % v.t, v.ty, "Z", None)
+        return v
+
+    def asB(self, v):
+        if v.k == "B":
+            return v
+        if v.const is not None:
+            return V("true" if v.const != 0 else "false", C_INT, "B")
+        return V("(negb (%s =? 0))" % v.t, C_INT, "B")
+
+    def conv(self, v, dst, tytext="?"):
+        if dst[0] != "int":
+            raise Unsupported("conversion to %s" % tytext)
+        if v.k == "B":
+            return V(v.t, dst, "B")
+        if v.ty[0] != "int":
+            raise Unsupported("conversion of a non-integer to %s" % tytext)
+        ds, db = dst[1], dst[2]
+        if v.const is not None:
+            c = c_wrap(v.const, ds, db)
+            return V(zlit(c), dst, "Z", c)
+        ss, sb = v.ty[1], v.ty[2]
+        if (ss == ds and db >= sb) or (not ss and ds and db > sb):
+            return V(v.t, dst)
+        return V("(%s %d %s)" % ("c_wrap_s" if ds else "c_wrap_u", db, v.t), dst)
+
+    def arith(self, op, a, b, ty, tytext):
+        if ty[0] != "int":
+            raise Unsupported("arithmetic in type %s" % tytext)
+        signed, bits = ty[1], ty[2]
+        if bits < 32:
+            raise Unsupported("arithmetic in an unpromoted type %s" % tytext)
+        a, b = self.asZ(a), self.asZ(b)
+        if op in ("+", "-", "*"):
+            if a.const is not None and b.const is not None:
+                c = {"+": a.const + b.const, "-": a.const - b.const, "*": a.const * b.const}[op]
+                if not signed:
+                    c = c_wrap(c, False, bits)
+                if c_fits(c, signed, bits):
+                    return V(zlit(c), ty, "Z", c)
+            t = "(%s %s %s)" % (a.t, op, b.t)
+            if signed:
+                return V(self.bind("(c_chk_s %d %s)" % (bits, t)), ty)
+            return V("(c_wrap_u %d %s)" % (bits, t), ty)
+        if op in ("&", "|", "^"):
+            f = {"&": "Z.land", "|": "Z.lor", "^": "Z.lxor"}[op]
+            return V("(%s %s %s)" % (f, a.t, b.t), ty)
+        if op in ("/", "%"):
+            if signed:
+                f = "c_div_s %d" % bits if op == "/" else "c_rem_s %d" % bits
+            else:
+                f = "c_div_u" if op == "/" else "c_rem_u"
+            return V(self.bind("(%s %s %s)" % (f, a.t, b.t)), ty)
+        if op == "<<":
+            return V(self.bind("(%s %d %s %s)" % ("c_shl_s" if signed else "c_shl_u", bits, a.t, b.t)), ty)
+        if op == ">>":
+            return V(self.bind("(c_shr %d %s %s)" % (bits, a.t, b.t)), ty)
+        raise Unsupported("binary operator %s" % op)
+
+    def elem_size(self, pty):
+        if pty[0] != "ptr" or "(" in pty[1]:
+            raise Unsupported("arithmetic on a pointer to %s" % (pty[1] if len(pty) > 1 else "?"))
+        return c_sizeof(self.cfile, self.incdir, pty[1])
+
+    def ptr_arith(self, op, p, n, ty):
+        size = self.elem_size(ty)
+        n = self.asZ(n)
+        off = n.t if size == 1 else "(%s * %d)" % (n.t, size)
+        return V(self.bind("(c_chk_ptr (%s %s %s))" % (p.t, op, off)), ty)
+
+    # ---------------------------------------------------------------- expressions
+    def ex(self, n, env):
+        n = self.skip(n)
+        k = n["kind"]
+        ty = ctype(n.get("type"))
+        tytext = self.qual(n)
+        if k in ("IntegerLiteral", "CharacterLiteral"):
+            c = int(n["value"])
+            if ty[0] != "int" or not c_fits(c, ty[1], ty[2]):
+                raise Unsupported("literal %s of type %s" % (n["value"], tytext))
+            return V(zlit(c), ty, "Z", c)
+        if k in ("ImplicitCastExpr", "CStyleCastExpr"):
+            return self.cast(n, env, ty, tytext)
+        if k == "UnaryOperator":
+            return self.unary(n, env, ty, tytext)
+        if k == "BinaryOperator":
+            return self.binary(n, env, ty, tytext)
+        if k == "ConditionalOperator":
+            c, a, b = n["inner"]
+            cv = self.asB(self.ex(c, env))
+            self.seq_point()
+            av, ba = self.scoped(lambda: self.ex(a, env))
+            bv, bb = self.scoped(lambda: self.ex(b, env))
+            if ty[0] not in ("int", "ptr"):
+                raise Unsupported("?: of type %s" % tytext)
+            kind = "B" if (av.k == "B" and bv.k == "B") else "Z"
+            if kind == "Z":
+                av, bv = self.asZ(av), self.asZ(bv)
+            if not ba and not bb:
+                return V("(if %s then %s else %s)" % (cv.t, av.t, bv.t), ty, kind)
+            v = self.bind("(if %s then %s else %s)" % (cv.t, self.close(ba, "(Some %s)" % av.t), self.close(bb, "(Some %s)" % bv.t)))
+            return V(v, ty, kind)
+        if k == "CallExpr":
+            return self.call(n, env)
+        if k == "UnaryExprOrTypeTraitExpr" and n.get("name") == "sizeof":
+            t = n["argType"]["qualType"] if "argType" in n else self.qual(self.skip(n["inner"][0]))
+            c = c_sizeof(self.cfile, self.incdir, t)
+            return V(zlit(c), ty, "Z", c)
+        if k in ("DeclRefExpr", "MemberExpr"):
+            rd = n.get("referencedDecl", {})
+            raise Unsupported("use of %s %s as a value" % (rd.get("kind", k), rd.get("name", n.get("name", ""))))
+        raise Unsupported("expression of kind %s" % k)
+
+    def cast(self, n, env, ty, tytext):
+        ck = n.get("castKind")
+        sub = n["inner"][0]
+        if ck == "LValueToRValue":
+            s = self.skip(sub)
+            name, text, akey = self.lv(s, env)
+            return self.read(name, ctype(s.get("type")), text, self.qual(s), env, akey)
+        if ck == "NoOp":
+            v = self.ex(sub, env)
+            return V(v.t, ty if ty[0] in ("int", "ptr") else v.ty, v.k, v.const)
+        if ck == "IntegralCast":
+            return self.conv(self.ex(sub, env), ty, tytext)
+        if ck == "BitCast":
+            v = self.ex(sub, env)
+            if v.ty[0] != "ptr" or ty[0] != "ptr":
+                raise Unsupported("bit cast to %s" % tytext)
+            return V(v.t, ty, v.k, v.const)
+        if ck == "NullToPointer":
+            return V("0", ty, "Z", 0)
+        if ck == "ArrayToPointerDecay":
+            s = self.skip(sub)
+            if s.get("kind") != "DeclRefExpr":
+                raise Unsupported("decay of an array that is not a variable")
+            name, text, _ = self.lv(s, env)
+            return V(self.param(name + "_addr", "&%s[0]" % text, self.qual(s), ty, None, name), ty)
+        if ck == "PointerToIntegral":
+            v = self.ex(sub, env)
+            return self.conv(V(v.t, C_ULONG, "Z", v.const), ty, tytext)
+        if ck == "IntegralToPointer":
+            v = self.conv(self.ex(sub, env), C_ULONG)
+            return V(v.t, ty, "Z", v.const)
+        raise Unsupported("cast of kind %s to %s" % (ck, tytext))
+
+    def unary(self, n, env, ty, tytext):
+        op = n["opcode"]
+        sub = n["inner"][0]
+        if op in ("++", "--"):
+            return self.incdec(n, env)
+        if op == "!":
+            return V("(negb %s)" % self.asB(self.ex(sub, env)).t, C_INT, "B")
+        if op in ("-", "+", "~"):
+            if ty[0] != "int" or ty[2] < 32:
+                raise Unsupported("unary %s in type %s" % (op, tytext))
+            v = self.asZ(self.ex(sub, env))
+            signed, bits = ty[1], ty[2]
+            if op == "+":
+                return V(v.t, ty, "Z", v.const)
+            if op == "-":
+                if v.const is not None:
+                    c = -v.const if signed else c_wrap(-v.const, False, bits)
+                    if c_fits(c, signed, bits):
+                        return V(zlit(c), ty, "Z", c)
+                if signed:
+                    return V(self.bind("(c_chk_s %d (- %s))" % (bits, v.t)), ty)
+                return V("(c_wrap_u %d (- %s))" % (bits, v.t), ty)
+            if signed:
+                return V("(Z.lnot %s)" % v.t, ty)
+            return V("(c_wrap_u %d (Z.lnot %s))" % (bits, v.t), ty)
+        raise Unsupported("unary operator %s" % op)
+
+    def incdec(self, n, env):
+        op = "+" if n["opcode"] == "++" else "-"
+        s = self.skip(n["inner"][0])
+        name, text, akey = self.lv(s, env)
+        ty, tytext = ctype(s.get("type")), self.qual(s)
+        old = self.read(name, ty, text, tytext, env, akey, record=False)
+        pname = name + "_addr" if ty[0] == "ptr" else name
+        if pname in self.fx_mod or pname in self.fx_read:
+            raise Unsupported("`%s` is modified and accessed without an intervening sequence point" % text)
+        if ty[0] == "ptr":
+            new = self.ptr_arith(op, old, V("1", C_INT, "Z", 1), ty)
+        elif ty[0] == "int":
+            t = "(%s %s 1)" % (old.t, op)
+            if ty[2] < 32:          # computed in int (no overflow), converted back
+                new = V("(%s %d %s)" % ("c_wrap_s" if ty[1] else "c_wrap_u", ty[2], t), ty)
+            elif ty[1]:
+                new = V(self.bind("(c_chk_s %d %s)" % (ty[2], t)), ty)
+            else:
+                new = V("(c_wrap_u %d %s)" % (ty[2], t), ty)
+        else:
+            raise Unsupported("%s on type %s" % (n["opcode"], tytext))
+        self.write(name, ty, text, tytext, akey, new, env, False)
+        return old if n.get("isPostfix") else new
+
+    def binary(self, n, env, ty, tytext):
+        op = n["opcode"]
+        a, b = n["inner"]
+        if op in ("&&", "||"):
+            av = self.asB(self.ex(a, env))
+            self.seq_point()
+            bv, bb = self.scoped(lambda: self.asB(self.ex(b, env)))
+            if not bb:
+                return V("(%s %s %s)" % (av.t, op, bv.t), C_INT, "B")
+            v = self.bind("(%s (Some %s) %s)" % ("ub_and" if op == "&&" else "ub_or", av.t, self.close(bb, "(Some %s)" % bv.t)))
+            return V(v, C_INT, "B")
+        if op in ("<", "<=", ">", ">=", "==", "!="):
+            av, bv = self.ex(a, env), self.ex(b, env)
+            if av.ty[0] != bv.ty[0] or av.ty[0] not in ("int", "ptr"):
+                raise Unsupported("comparison of %s with %s" % (self.qual(a), self.qual(b)))
+            if av.ty[0] == "int" and av.ty != bv.ty and av.k != "B" and bv.k != "B":
+                raise Unsupported("comparison of operands of different types %s / %s" % (self.qual(a), self.qual(b)))
+            av, bv = self.asZ(av), self.asZ(bv)
+            if op == "!=":
+                return V("(negb (%s =? %s))" % (av.t, bv.t), C_INT, "B")
+            m = {"<": "<?", "<=": "<=?", ">": ">?", ">=": ">=?", "==": "=?"}[op]
+            return V("(%s %s %s)" % (av.t, m, bv.t), C_INT, "B")
+        if op in ("=", ",") or op.endswith("=") and op not in ("<=", ">=", "==", "!="):
+            raise Unsupported("operator %s inside an expression" % op)
+        av, bv = self.ex(a, env), self.ex(b, env)
+        if ty[0] == "ptr":
+            if op == "+" and av.ty[0] == "ptr" and bv.ty[0] == "int":
+                return self.ptr_arith("+", av, bv, ty)
+            if op == "+" and bv.ty[0] == "ptr" and av.ty[0] == "int":
+                return self.ptr_arith("+", bv, av, ty)
+            if op == "-" and av.ty[0] == "ptr" and bv.ty[0] == "int":
+                return self.ptr_arith("-", av, bv, ty)
+            raise Unsupported("pointer operator %s" % op)
+        if av.ty[0] != "int" or bv.ty[0] != "int":
+            raise Unsupported("operator %s on %s / %s" % (op, self.qual(a), self.qual(b)))
+        if op in ("<<", ">>"):
+            if av.ty != ty and av.k != "B":
+                raise Unsupported("shift whose left operand is not of the result type")
+        elif (av.ty != ty and av.k != "B") or (bv.ty != ty and bv.k != "B"):
+            raise Unsupported("operator %s whose operands are not of the result type %s" % (op, tytext))
+        return self.arith(op, av, bv, ty, tytext)
+
+    def callee_name(self, n):
+        c = n["inner"][0]
+        while c.get("kind") in ("ImplicitCastExpr", "ParenExpr"):
+            c = c["inner"][0]
+        if c.get("kind") != "DeclRefExpr" or c.get("referencedDecl", {}).get("kind") != "FunctionDecl":
+            raise Unsupported("indirect call")
+        return c["referencedDecl"]["name"]
+
+    def call(self, n, env):
+        fn = self.callee_name(n)
+        if fn not in self.known:
+            raise Unsupported("call of %s (not a translated function of this file)" % fn)
+        info = self.known[fn]
+        if info["outs"]:
+            raise Unsupported("call of %s, which writes through its parameters" % fn)
+        if info["ret"] is None:
+            raise Unsupported("call of the void function %s" % fn)
+        args = n["inner"][1:]
+        if len(args) != len(info["cparams"]):
+            raise Unsupported("call of %s with %d arguments" % (fn, len(args)))
+        amap = {}
+        for (cn, cty), a in zip(info["cparams"], args):
+            t = ctype(cty)
+            if t[0] == "int":
+                amap[cn] = ("val", self.conv(self.ex(a, env), t))
+            elif t[0] == "ptr":
+                pl = self.ptr_lvalue(a)
+                if pl is None:
+                    raise Unsupported("pointer argument of %s that is not a variable or a field" % fn)
+                name, text, _ = self.lv(pl, env)
+                amap[cn] = ("ptr", name, text)
+            else:
+                raise Unsupported("argument of type %s" % cty.get("qualType"))
+        actuals = []
+        for (_, text, tytext, pty, akey, base) in info["params"]:
+            root = re.split(r"->|\.", text)[0].lstrip("&").split("[")[0]
+            if root not in amap:
+                raise Unsupported("call of %s, which reads `%s`" % (fn, text))
+            if amap[root][0] == "val":
+                actuals.append(self.asZ(amap[root][1]).t)
+            else:
+                _, aname, atext = amap[root]
+                v = self.read(aname + base[len(root):], pty, atext + text[len(root):], tytext, env, akey)
+                actuals.append(self.asZ(v).t)
+        v = self.bind("(%s %s)" % (info["gname"], " ".join(actuals)) if actuals else "(%s tt)" % info["gname"])
+        return V(v, info["ret"])
+
+    # ---------------------------------------------------------------- statements with effects
+    def effect(self, s, env):
+        """an expression statement / declaration: updates env.  Returns the (name, ...) of the lvalue written (or None)."""
+        k = s["kind"]
+        tgt = None
+        if k == "DeclStmt":
+            for d in s.get("inner", []):
+                if d["kind"] != "VarDecl":
+                    raise Unsupported("declaration %s" % d["kind"])
+                if d.get("storageClass") == "static":
+                    raise Unsupported("static local %s" % d["name"])
+                inits = [c for c in d.get("inner", []) if isinstance(c, dict) and "kind" in c and not c["kind"].endswith("Attr")]
+                if inits and d["name"] not in self.opaque:
+                    ty = ctype(d.get("type"))
+                    v = self.ex(inits[0], env)
+                    if ty[0] == "int":
+                        v = self.conv(v, ty, self.qual(d))
+                    self.write(d["name"], ty, d["name"], self.qual(d), None, v, env, False)
+                    tgt = d["name"]
+                self.seq_point()
+            return tgt
+        if k == "BinaryOperator" and s["opcode"] == "=":
+            lhs, rhs = s["inner"]
+            l = self.skip(lhs)
+            name, text, akey = self.lv(l, env)
+            ty, tytext = ctype(l.get("type")), self.qual(l)
+            v = self.ex(rhs, env)
+            if ty[0] == "int":
+                v = self.conv(v, ty, tytext)
+            elif ty[0] != "ptr" or v.ty[0] != "ptr":
+                raise Unsupported("assignment to `%s` of type %s" % (text, tytext))
+            self.write(name, ty, text, tytext, akey, v, env, False)
+            self.seq_point()
+            return text
+        if k == "CompoundAssignOperator":
+            lhs, rhs = s["inner"]
+            l = self.skip(lhs)
+            name, text, akey = self.lv(l, env)
+            ty, tytext = ctype(l.get("type")), self.qual(l)
+            op = s["opcode"][:-1]
+            old = self.read(name, ty, text, tytext, env, akey)
+            r = self.ex(rhs, env)
+            if ty[0] == "ptr":
+                if op not in ("+", "-") or r.ty[0] != "int":
+                    raise Unsupported("%s on a pointer" % s["opcode"])
+                new = self.ptr_arith(op, old, r, ty)
+            else:
+                lt, rt = ctype(s.get("computeLHSType")), ctype(s.get("computeResultType"))
+                a = self.conv(old, lt, "computation type")
+                new = self.conv(self.arith(op, a, r, rt, "computation type"), ty, tytext)
+            self.write(name, ty, text, tytext, akey, new, env, False)
+            self.seq_point()
+            return text
+        if k == "UnaryOperator" and s["opcode"] in ("++", "--"):
+            self.incdec(s, env)
+            self.seq_point()
+            return self.lv(self.skip(s["inner"][0]), env, check=False)[1]
+        if k == "CallExpr":
+            self.call(s, env)
+            self.seq_point()
+            return None
+        raise Unsupported("statement of kind %s" % k)
+
+    # ---------------------------------------------------------------- whole functions
+    def exec(self, stmts, env):
+        """tree: ("RET", value or None, env) | ("IF", cond, t, e) | ("BIND", var, term, rest)"""
+        if not stmts:
+            return ("RET", None, env)
+        s, rest = stmts[0], stmts[1:]
+        k = s["kind"]
+        if k == "CompoundStmt":
+            return self.exec(list(s.get("inner", [])) + rest, env)
+        if k == "NullStmt":
+            return self.exec(rest, env)
+        saved = self.binds
+        self.binds = []
+        self.checked.append(set())
+        try:
+            if k == "IfStmt":
+                if s.get("hasInit") or s.get("hasVar"):
+                    raise Unsupported("if with a declaration")
+                inner = s["inner"]
+                c = self.asB(self.ex(inner[0], env))
+                self.seq_point()
+                tree = ("IF", c.t, self.exec([inner[1]] + rest, dict(env)), self.exec(([inner[2]] if len(inner) > 2 else []) + rest, dict(env)))
+            elif k == "ReturnStmt":
+                v = None
+                if s.get("inner"):
+                    v = self.ex(s["inner"][0], env)
+                    self.seq_point()
+                tree = ("RET", v, env)
+            else:
+                self.effect(s, env)
+                tree = self.exec(rest, env)
+            for v, t in reversed(self.binds):
+                tree = ("BIND", v, t, tree)
+            return tree
+        finally:
+            self.binds = saved
+            self.checked.pop()
+
+    def render(self, t, ind, ret_ty):
+        pad = "  " * ind
+        if t[0] == "RET":
+            _, v, env = t
+            vals = []
+            if ret_ty is not None:
+                if v is None:
+                    raise Unsupported("a path of a non-void function returns no value")
+                vals.append(self.asZ(v).t)
+            for (name, text, tytext, ty, akey) in self.outs:
+                if name in env:
+                    vals.append(self.asZ(env[name]).t)
+                else:                       # not written on this path: still its initial value
+                    vals.append(self.param(name, text, tytext, ty, akey, name[:-5] if ty[0] == "ptr" else name))
+            return pad + "Some " + (vals[0] if len(vals) == 1 and " " not in vals[0] else "(" + ", ".join(vals) + ")")
+        if t[0] == "IF":
+            return "%sif %s then\n%s\n%selse\n%s" % (pad, t[1], self.render(t[2], ind + 1, ret_ty), pad, self.render(t[3], ind + 1, ret_ty))
+        if t[0] == "BIND":
+            return "%sub_bind %s (fun %s =>\n%s)" % (pad, t[2], t[1], self.render(t[3], ind, ret_ty))
+        raise Unsupported("tree")
+
+    # ---------------------------------------------------------------- selection of the translated text
+    def statements(self, n, out):
+        """all statement nodes below n, in pre-order"""
+        k = n.get("kind")
+        inner = [c if isinstance(c, dict) else {} for c in n.get("inner", [])]
+        if k == "CompoundStmt":
+            subs = inner
+        elif k == "IfStmt":
+            subs = inner[1:]
+        elif k == "WhileStmt":
+            subs = inner[-1:]
+        elif k == "DoStmt":
+            subs = inner[:1]
+        elif k == "ForStmt":
+            subs = [inner[0], inner[-1]] if len(inner) == 5 else []
+        elif k in ("LabelStmt", "CaseStmt", "DefaultStmt", "SwitchStmt"):
+            subs = inner[-1:]
+        else:
+            subs = []
+        for c in subs:
+            if "kind" in c:
+                out.append(c)
+                self.statements(c, out)
+        return out
+
+    def spelled(self, n):
+        try:
+            return self.lv(self.skip(n), {}, check=False)[1]
+        except Unsupported:
+            return None
+
+    def scan_addr(self, n):
+        """pointer lvalues whose address is used by the text below n (comparison, conversion to an integer, !p, p && q)"""
+        if not isinstance(n, dict):
+            return
+        k = n.get("kind")
+        cands = []
+        if k == "BinaryOperator" and n.get("opcode") in ("<", "<=", ">", ">=", "==", "!=", "&&", "||"):
+            cands = n["inner"]
+        elif k == "UnaryOperator" and n.get("opcode") == "!":
+            cands = n["inner"]
+        elif k in ("ImplicitCastExpr", "CStyleCastExpr") and n.get("castKind") in ("PointerToIntegral", "PointerToBoolean"):
+            cands = n["inner"]
+        elif k in ("IfStmt", "WhileStmt", "ConditionalOperator"):
+            cands = n["inner"][:1]
+        elif k == "DoStmt":
+            cands = n["inner"][1:2]
+        for c in cands:
+            pl = self.ptr_lvalue(c) if "*" in self.qual(c) else None
+            if pl is not None:
+                try:
+                    self.addr_ptrs.add(self.lv(pl, {}, check=False)[0])
+                except Unsupported:
+                    pass
+        for c in n.get("inner", []):
+            self.scan_addr(c)
+
+    def signature(self, cnames):
+        order = []
+        for cp in cnames:
+            for p in self.params:
+                root = re.split(r"->|\.", p[1])[0].lstrip("&").split("[")[0]
+                if root == cp and p not in order:
+                    order.append(p)
+        for p in self.params:
+            if p not in order:
+                order.append(p)
+        return order
+
+    def translate(self):
+        sel = self.sel
+        fn = self.decl["name"]
+        if sel[0] == "fn":
+            self.scan_addr(self.body)
+            rtext = self.decl.get("type", {}).get("qualType", "").split("(")[0].strip()
+            ret_ty = None
+            if rtext != "void":
+                # the operand of a return statement has been converted to the result type by clang
+                rets = [s for s in self.statements(self.body, []) if s["kind"] == "ReturnStmt" and s.get("inner")]
+                if not rets:
+                    raise Unsupported("non-void function without a return statement")
+                ret_ty = ctype(rets[0]["inner"][0].get("type"))
+                if ret_ty[0] != "int":
+                    raise Unsupported("function returning %s" % rtext)
+            tree = self.exec([self.body], {})
+            text = self.render(tree, 1, ret_ty)
+            n = (1 if ret_ty is not None else 0) + len(self.outs)
+            if n == 0:
+                raise Unsupported("the function returns nothing and writes nothing observable")
+            rty = "Z" if n == 1 else "(" + " * ".join(["Z"] * n) + ")"
+            what = "%s() of src/%s" % (fn, self.cfile)
+            res = ([] if ret_ty is None else ["the return value"]) + ["`%s`" % o[1] for o in self.outs]
+            order = self.signature([c for c, _ in self.cparams])
+            self.known[fn] = {"gname": self.gname, "cparams": self.cparams, "ret": ret_ty, "outs": list(self.outs), "params": order}
+        elif sel[0] == "cond":
+            kind = {"if": "IfStmt", "while": "WhileStmt", "do": "DoStmt", "for": "ForStmt"}[sel[1]]
+            found = [s for s in self.statements(self.body, []) if s["kind"] == kind]
+            if len(found) <= sel[2]:
+                raise Unsupported("%s() has no %s statement number %d" % (fn, sel[1], sel[2]))
+            s = found[sel[2]]
+            if s.get("hasInit") or s.get("hasVar"):
+                raise Unsupported("%s statement with a declaration" % sel[1])
+            cond = s["inner"][{"IfStmt": 0, "WhileStmt": 0, "DoStmt": 1, "ForStmt": 2}[kind]]
+            if not cond or "kind" not in cond:
+                raise Unsupported("%s statement without a condition" % sel[1])
+            self.scan_addr({"kind": "IfStmt", "inner": [cond]})
+            self.no_effects = True
+            v = self.asB(self.ex(cond, {}))
+            text = "  " + self.unparen(self.close(self.binds, "(Some %s)" % v.t))
+            rty = "bool"
+            what = "controlling expression of %s statement #%d of %s() of src/%s" % (sel[1], sel[2], fn, self.cfile)
+            res = ["the value of the test"]
+            order = list(self.params)
+        elif sel[0] == "stmt":
+            found = []
+            for s in self.statements(self.body, []):
+                k = s["kind"]
+                if k == "DeclStmt":
+                    if any(d.get("kind") == "VarDecl" and d.get("name") == sel[1] and
+                           [c for c in d.get("inner", []) if isinstance(c, dict) and "kind" in c and not c["kind"].endswith("Attr")]
+                           for d in s.get("inner", [])) and len(s.get("inner", [])) == 1:
+                        found.append(s)
+                elif (k == "BinaryOperator" and s.get("opcode") == "=") or k == "CompoundAssignOperator" or \
+                        (k == "UnaryOperator" and s.get("opcode") in ("++", "--")):
+                    if self.spelled(s["inner"][0]) == sel[1]:
+                        found.append(s)
+            if len(found) <= sel[2]:
+                raise Unsupported("%s() has no statement number %d writing `%s`" % (fn, sel[2], sel[1]))
+            s = found[sel[2]]
+            self.scan_addr(s)
+            env = {}
+            self.effect(s, env)
+            tgt = [o for o in self.outs if o[1] == sel[1]]
+            if len(tgt) != 1:
+                raise Unsupported("statement does not write `%s`" % sel[1])
+            self.outs = tgt + [o for o in self.outs if o[1] != sel[1]]
+            vals = [self.asZ(env[o[0]]).t for o in self.outs]
+            text = "  " + self.unparen(self.close(self.binds, "(Some %s)" % (vals[0] if len(vals) == 1 else "(" + ", ".join(vals) + ")")))
+            rty = "Z" if len(vals) == 1 else "(" + " * ".join(["Z"] * len(vals)) + ")"
+            what = "statement #%d writing `%s` of %s() of src/%s" % (sel[2], sel[1], fn, self.cfile)
+            res = ["new value of `%s`" % o[1] for o in self.outs]
+            order = list(self.params)
+        else:
+            raise Unsupported("selector %s" % (sel,))
+        com = "%s\n   parameters: %s\n   result: Some (%s)%s" % (
+            what, "; ".join("%s = `%s` : %s" % p[:3] for p in order) if order else "none", ", ".join(res),
+            ("\n   initialisers NOT translated (opaque locals): " + ", ".join(sorted(self.opaque))) if self.opaque else "")
+        com = com.replace("*)", "* )").replace("(*", "( *")
+        return "(* " + com + " *)\n" + "Definition %s %s : option %s :=\n%s.\n" % (
+            self.gname, " ".join("(%s : Z)" % p[0] for p in order) if order else "(_ : unit)", rty, text)
+
+
 def main(out_path=None):
     out_path = out_path or os.path.join(VERIF, "coq", "theories", "Gen", "Leaf.v")
     inc = os.path.join(VERIF, "build", "gen_inc.%d" % os.getpid())
@@ -721,6 +1579,31 @@ def main(out_path=None):
         if tnew != told:
             os.makedirs(os.path.dirname(tls_path), exist_ok=True)
             open(tls_path, "w").write(tnew)
+        # typed translations (TYPED): one file per C source file, failures per file in LAST_ERRORS (the other files are not disturbed)
+        for fname, cfile, entries in TYPED:
+            head = ("(* %s -- GENERATED by gen/c2gallina.py (TYPED, class CTr) from the current C source of /repo/src/%s.  Do not edit.\n"
+                    "   Every definition has type option T: None = an operation whose behaviour C leaves undefined was executed; the\n"
+                    "   semantics of the C operators (wrap-around, range checks, shifts, null dereference) is Base/CSem.v; conventions\n"
+                    "   (flattened lvalues p->f = p_f, address of a pointer p = p_addr, block-scope variables as parameters) in the\n"
+                    "   comment above class CTr of gen/c2gallina.py. *)\n"
+                    "From Coq Require Import ZArith Bool.\nFrom Ivv Require Import Base.CSem.\nLocal Open Scope Z_scope.\n\n" % (fname, cfile))
+            LAST_ERRORS.pop(fname, None)
+            gparts = [head]
+            cur = "?"
+            try:
+                known2 = {}
+                for gname, fn, sel, opts in entries:
+                    cur = "%s (%s of %s)" % (gname, " ".join(str(x) for x in sel), fn)
+                    tr = CTr(gname, ast_of_cached(cfile, fn, inc), cfile, inc, sel, opts, known2)
+                    gparts.append(tr.translate() + "\n")
+            except (Unsupported, KeyError, IndexError, TypeError, ValueError) as e:
+                LAST_ERRORS[fname] = "c2gallina: %s: %s: unsupported construct: %s" % (cfile, cur, e)
+                gparts = [head, "(* TRANSLATION FAILED: %s: %s *)\n" % (cur, str(e).replace("*)", "* )").replace("(*", "( *"))]
+            gpath = os.path.join(os.path.dirname(out_path), fname)
+            gnew = "".join(gparts)
+            gold = open(gpath).read() if os.path.exists(gpath) else None
+            if gnew != gold:
+                open(gpath, "w").write(gnew)
         new = "".join(parts)
         old = open(out_path).read() if os.path.exists(out_path) else None
         if new != old:
